@@ -19,17 +19,33 @@ structure Inv (s : St Node) : Prop where
       hashes of the reference chain (the chain before the back-out) -/
   half : ∀ n, s.pending = some n → s.src = s.ref.take n ∧ 0 < n ∧ n < s.ref.length
   reqs : ∀ r ∈ s.reqs, ReqOK H s.c s.truncations s.src s.ref r
+  /-- the header part of every request / reply (F24) -/
+  hdrs : ∀ r ∈ s.reqs, HdrOK H r
 
-theorem inv_start [DecidableEq Node] (s : St Node) (cp height : Nat) (hinv : Inv H s) :
-    Inv H (step H Cfg.fixed s (.start cp height)) := by
-  simp only [step]
-  refine ⟨hinv.cache, hinv.pre, hinv.quiet, hinv.half, ?_⟩
-  intro r hr
-  rcases List.mem_append.mp hr with hr | hr
-  · exact hinv.reqs r hr
-  · simp only [List.mem_singleton] at hr
-    subst hr
-    exact reqOK_new H _ _ _ _ _ _ _
+theorem inv_new (s : St Node) (kind : Handler) (first count cp : Nat) (hinv : Inv H s)
+    (hnew : HdrOK H (newReq s.truncations s.src s.pending.isSome kind first count cp)) :
+    Inv H { s with reqs := s.reqs ++ [newReq s.truncations s.src s.pending.isSome kind first count cp] } := by
+  refine ⟨hinv.cache, hinv.pre, hinv.quiet, hinv.half, ?_, ?_⟩
+  · intro r hr
+    rcases List.mem_append.mp hr with hr | hr
+    · exact hinv.reqs r hr
+    · simp only [List.mem_singleton] at hr
+      subst hr
+      exact reqOK_new H _ _ _ _ _ _ _ _ _
+  · intro r hr
+    rcases List.mem_append.mp hr with hr | hr
+    · exact hinv.hdrs r hr
+    · simp only [List.mem_singleton] at hr
+      subst hr
+      exact hnew
+
+theorem inv_header [DecidableEq Node] (s : St Node) (height cp : Nat) (hinv : Inv H s) :
+    Inv H (step H Cfg.fixed s (.header height cp)) :=
+  inv_new H s .header height 1 cp hinv (hdrOK_header H _ _ _ _ _)
+
+theorem inv_headers [DecidableEq Node] (s : St Node) (first count cp : Nat) (hinv : Inv H s) :
+    Inv H (step H Cfg.fixed s (.headers first count cp)) :=
+  inv_new H s .headers first count cp hinv (hdrOK_headers H _ _ _ _ _ _)
 
 theorem inv_perform [DecidableEq Node] (s : St Node) (i : Nat) (hinv : Inv H s) :
     Inv H (step H Cfg.fixed s (.perform i)) := by
@@ -37,12 +53,17 @@ theorem inv_perform [DecidableEq Node] (s : St Node) (i : Nat) (hinv : Inv H s) 
   split
   · exact hinv
   · next r hr =>
-    refine ⟨hinv.cache, hinv.pre, hinv.quiet, hinv.half, ?_⟩
-    intro r' hr'
-    rcases List.mem_or_eq_of_mem_set hr' with h | h
-    · exact hinv.reqs r' h
-    · subst h
-      exact reqOK_perform H hinv.pre (hinv.reqs r (List.mem_of_getElem? hr))
+    refine ⟨hinv.cache, hinv.pre, hinv.quiet, hinv.half, ?_, ?_⟩
+    · intro r' hr'
+      rcases List.mem_or_eq_of_mem_set hr' with h | h
+      · exact hinv.reqs r' h
+      · subst h
+        exact reqOK_perform H hinv.pre (hinv.reqs r (List.mem_of_getElem? hr))
+    · intro r' hr'
+      rcases List.mem_or_eq_of_mem_set hr' with h | h
+      · exact hinv.hdrs r' h
+      · subst h
+        exact hdrOK_perform H (hinv.reqs r (List.mem_of_getElem? hr)).head (hinv.hdrs r (List.mem_of_getElem? hr))
 
 theorem inv_deliver [DecidableEq Node] (s : St Node) (i : Nat) (hinv : Inv H s) :
     Inv H (step H Cfg.fixed s (.deliver i)) := by
@@ -50,13 +71,18 @@ theorem inv_deliver [DecidableEq Node] (s : St Node) (i : Nat) (hinv : Inv H s) 
   split
   · exact hinv
   · next r hr =>
-    obtain ⟨d1, d2, d3, d4⟩ := deliver_ok H hinv.cache hinv.pre (hinv.reqs r (List.mem_of_getElem? hr))
-    refine ⟨d1, hinv.pre, hinv.quiet, hinv.half, ?_⟩
-    intro r' hr'
-    rcases List.mem_or_eq_of_mem_set hr' with h | h
-    · exact (hinv.reqs r' h).mono H d2 d3
-    · subst h
-      exact d4
+    obtain ⟨d1, d2, d3, d4⟩ := deliverAll_ok H hinv.cache hinv.pre (hinv.reqs r (List.mem_of_getElem? hr))
+    refine ⟨d1, hinv.pre, hinv.quiet, hinv.half, ?_, ?_⟩
+    · intro r' hr'
+      rcases List.mem_or_eq_of_mem_set hr' with h | h
+      · exact (hinv.reqs r' h).mono H d2 d3
+      · subst h
+        exact d4
+    · intro r' hr'
+      rcases List.mem_or_eq_of_mem_set hr' with h | h
+      · exact hinv.hdrs r' h
+      · subst h
+        exact hdrOK_deliverAll H (hinv.hdrs r (List.mem_of_getElem? hr))
 
 theorem inv_boBegin [DecidableEq Node] (s : St Node) (n : Nat) (hinv : Inv H s) :
     Inv H (step H Cfg.fixed s (.boBegin n)) := by
@@ -66,7 +92,7 @@ theorem inv_boBegin [DecidableEq Node] (s : St Node) (n : Nat) (hinv : Inv H s) 
     obtain ⟨g1, g2, g3⟩ := hg
     have href := hinv.quiet g1
     simp only [fixed_lowerFirst, if_true]
-    refine ⟨hinv.cache, ?_, fun h => (by cases h), ?_, ?_⟩
+    refine ⟨hinv.cache, ?_, fun h => (by cases h), ?_, ?_, ?_⟩
     · show s.src.take n <+: s.ref
       rw [href]; exact List.take_prefix _ _
     · intro n' hn'
@@ -82,6 +108,9 @@ theorem inv_boBegin [DecidableEq Node] (s : St Node) (n : Nat) (hinv : Inv H s) 
       show ReqOK H s.c s.truncations (s.src.take n) s.ref _
       rw [href]
       exact reqOK_lower H n this
+    · intro r hr
+      obtain ⟨r0, hr0, rfl⟩ := List.mem_map.mp hr
+      exact hdrOK_markBo H (hdrOK_see H _ (hinv.hdrs r0 hr0))
   · exact hinv
 
 theorem inv_boEnd [DecidableEq Node] (s : St Node) (hinv : Inv H s) :
@@ -94,7 +123,7 @@ theorem inv_boEnd [DecidableEq Node] (s : St Node) (hinv : Inv H s) :
     simp only [fixed_lowerFirst, if_true]
     obtain ⟨t1, t2, t3, _⟩ := truncate_length s.c (n : Int) (by omega)
     have hsl : s.src.length = n := by rw [h1, List.length_take]; omega
-    refine ⟨?_, List.prefix_refl _, fun _ => rfl, fun n' hn' => (by cases hn'), ?_⟩
+    refine ⟨?_, List.prefix_refl _, fun _ => rfl, fun n' hn' => (by cases hn'), ?_, ?_⟩
     · show CacheInv H (s.c.truncate (.int n)).1 s.src
       apply (truncate_inv H s.c s.ref (.int n) hinv.cache).congr H
       · rw [hsl]; simpa using t2
@@ -103,6 +132,9 @@ theorem inv_boEnd [DecidableEq Node] (s : St Node) (hinv : Inv H s) :
     · intro r hr
       obtain ⟨r0, hr0, rfl⟩ := List.mem_map.mp hr
       exact reqOK_trunc H t3 (hinv.reqs r0 hr0)
+    · intro r hr
+      obtain ⟨r0, hr0, rfl⟩ := List.mem_map.mp hr
+      exact hdrOK_markBo H (hinv.hdrs r0 hr0)
 
 theorem inv_append [DecidableEq Node] (s : St Node) (ns : List Node) (hinv : Inv H s) :
     Inv H (step H Cfg.fixed s (.append ns)) := by
@@ -111,7 +143,7 @@ theorem inv_append [DecidableEq Node] (s : St Node) (ns : List Node) (hinv : Inv
   · next hg =>
     have href := hinv.quiet hg
     have hcl : s.c.length ≤ s.src.length := by have := hinv.cache.len; rw [href] at this; exact this
-    refine ⟨?_, List.prefix_refl _, fun _ => rfl, fun n' hn' => ?_, ?_⟩
+    refine ⟨?_, List.prefix_refl _, fun _ => rfl, fun n' hn' => ?_, ?_, ?_⟩
     · show CacheInv H s.c (s.src ++ ns)
       apply hinv.cache.congr H
       · rw [List.length_append]; omega
@@ -123,13 +155,17 @@ theorem inv_append [DecidableEq Node] (s : St Node) (ns : List Node) (hinv : Inv
       have := hinv.reqs r0 hr0
       rw [href] at this
       exact reqOK_append H ns hcl this
+    · intro r hr
+      obtain ⟨r0, hr0, rfl⟩ := List.mem_map.mp hr
+      exact hdrOK_see H _ (hinv.hdrs r0 hr0)
   · exact hinv
 
 /-- **the invariant is inductive** (current code): every event preserves it -/
 theorem inv_step [DecidableEq Node] (s : St Node) (ev : Ev Node) (hinv : Inv H s) :
     Inv H (step H Cfg.fixed s ev) := by
   cases ev with
-  | start cp height => exact inv_start H s cp height hinv
+  | header height cp => exact inv_header H s height cp hinv
+  | headers first count cp => exact inv_headers H s first count cp hinv
   | perform i => exact inv_perform H s i hinv
   | deliver i => exact inv_deliver H s i hinv
   | boBegin n => exact inv_boBegin H s n hinv
@@ -152,6 +188,7 @@ structure Init (s : St Node) : Prop where
 
 theorem Init.inv {s : St Node} (h : Init H s) : Inv H s :=
   ⟨by rw [h.ref]; exact h.cache, by rw [h.ref]; exact List.prefix_refl _, fun _ => h.ref,
-    fun n hn => (by rw [h.pending] at hn; cases hn), fun r hr => (by rw [h.reqs] at hr; cases hr)⟩
+    fun n hn => (by rw [h.pending] at hn; cases hn), fun r hr => (by rw [h.reqs] at hr; cases hr),
+    fun r hr => (by rw [h.reqs] at hr; cases hr)⟩
 
 end EV.HeaderCache
